@@ -494,12 +494,11 @@ func r05_4(c *Ctx, rule string) {
 		return
 	}
 	n := 0
-	for _, call := range c.P.CallsTo(loop, "strings.HasPrefix") {
+	for _, pt := range c.prefixTests(loop) {
 		n++
-		a := call.Common().Args
-		ok, why := sepTerminated(c, a[1], true, 0)
-		c.R.Check(ok, rule, c.siteName(call)+"/separator-terminated", c.pos(call), "the prefix is only ever '' or dir + Separator", "the removed-directory prefix is not separator-terminated ("+why+"): deleting directory 'a' suppresses the delete of sibling 'ab'")
-		c.R.Check(isFieldLoad(a[0], "fsutil.currentPath.path"), rule, c.siteName(call)+"/subject", c.pos(call), "tested against the destination entry's path", "the prefix test is not applied to the destination entry's path")
+		ok, why := sepTerminated(c, pt.prefix, true, 0)
+		c.R.Check(ok, rule, pt.name+"/separator-terminated", c.pos(pt.site), "the prefix is only ever '' or dir + Separator", "the removed-directory prefix is not separator-terminated ("+why+"): deleting directory 'a' suppresses the delete of sibling 'ab'")
+		c.R.Check(isFieldLoad(pt.subject, "fsutil.currentPath.path"), rule, pt.name+"/subject", c.pos(pt.site), "tested against the destination entry's path", "the prefix test is not applied to the destination entry's path")
 	}
 	c.R.Floor(rule, "prefix tests in the diff loop", n, 1)
 	// a directory replaced by a non-directory of any kind (file, symlink,
@@ -539,8 +538,8 @@ func r05_4(c *Ctx, rule string) {
 	}
 	// the prefix cell: the operand of the prefix test
 	cell := ""
-	for _, call := range c.P.CallsTo(loop, "strings.HasPrefix") {
-		if l := loadLoc(eng.Strip(call.Common().Args[1])); l != "" {
+	for _, pt := range c.prefixTests(loop) {
+		if l := loadLoc(eng.Strip(pt.prefix)); l != "" {
 			cell = l
 		}
 	}
